@@ -18,6 +18,7 @@ REPLAY_DIR = os.path.join(VERIF_DIR, 'replays')
 EVIDENCE_DIR = os.path.join(VERIF_DIR, 'evidence')
 KNOWN_FILE = os.path.join(VERIF_DIR, 'known_findings.json')
 RUN_TIMEOUT_S = int(os.environ.get('VERIF_RUN_TIMEOUT_S', '60'))
+STOP_AFTER = int(os.environ.get('VERIF_STOP_AFTER', '48'))
 
 
 class Violation(Exception):
@@ -400,6 +401,7 @@ def run_batch(world, verif_seed, workers, budget_s, known, max_runs=None, only_l
             plan.append((leg, list(range(s, min(n, s + per))), RUN_TIMEOUT_S * per + 120))
     results = []
     skipped = 0
+    n_viol = 0   # once enough failing runs exist, no further chunks are started (a failing tree need not be explored to the end)
     if workers <= 1:
         for a in plan:
             if time.monotonic() > deadline:
@@ -420,7 +422,7 @@ def run_batch(world, verif_seed, workers, budget_s, known, max_runs=None, only_l
                         except StopIteration:
                             done_iter = True
                             break
-                        if time.monotonic() > deadline:
+                        if time.monotonic() > deadline or n_viol >= STOP_AFTER:
                             skipped += len(a[1])
                             continue
                         pending[ex.submit(_chunk, a)] = a
@@ -429,7 +431,9 @@ def run_batch(world, verif_seed, workers, budget_s, known, max_runs=None, only_l
                     done, _ = concurrent.futures.wait(pending, return_when=concurrent.futures.FIRST_COMPLETED)
                     for f in done:
                         pending.pop(f)
-                        results.extend(f.result())
+                        rs = f.result()
+                        n_viol += sum(1 for r in rs if r.get('violation'))
+                        results.extend(rs)
             except concurrent.futures.process.BrokenProcessPool as e:
                 raise HarnessError('worker died or hung: %r' % (e,))
     legs_order = {leg: i for i, (leg, _) in enumerate(world.get_legs())}
